@@ -481,7 +481,9 @@ fn check_case(ctx: &Ctx, sut: &mut Sut, case: &Case) -> Vec<Fail> {
         return fails;
     }
     let t = exact_result(op, &case.vals);
-    if !representable(&t) && (t.numer().bits() > 1000 || t.denom().bits() > 1000) {
+    // (the magnitude of the value, not of its numerator or denominator alone: (3/2)^700 has a
+    // 1110-bit numerator and is an ordinary double)
+    if !representable(&t) && (t.numer().bits() as i64 - t.denom().bits() as i64).abs() > 1000 {
         ctx.discard("unrepresentable-true-value-beyond-double-range");
         return fails;
     }
